@@ -603,7 +603,8 @@ def pipeline_plan(pid, tier):
         for kt in ("simple", "ordinary", "universal"):
             for mesh in both:
                 plan.append(("Krige_%s_%s" % (kt, mesh[:2]), "Krige",
-                             dict(maxcalls=2, maxtrans=0, ktypes=(kt,), meshes=(mesh,)), 2))
+                             dict(maxcalls=3 if thorough else 2, maxtrans=0, ktypes=(kt,), meshes=(mesh,)),
+                             3 if thorough else 2))
         plan.append(("CondSRF", "CondSRF", dict(maxcalls=nc, maxtrans=0, ktypes=("simple", "ordinary"), meshes=both), nc))
         plan.append(("Vario", "Vario", dict(maxcalls=1, maxtrans=0, vtypes=("scalar", "vector"), meshes=both), 1))
     else:
